@@ -1005,6 +1005,15 @@ class StubsStringGenerator:
         shortest_reexport_module_id = self._get_module_id()
         shortest_reexport_module: Module | None = None
         for reexport_module in node.reexported_by:
+            # A module that imports the node under an internal alias does not reexport it
+            if any(
+                qualified_import.qualified_name.split(".")[-1] == node.name
+                and qualified_import.alias is not None
+                and is_internal(qualified_import.alias)
+                for qualified_import in reexport_module.qualified_imports
+            ):
+                continue
+
             if len(reexport_module.id.split("/")) < len(shortest_reexport_module_id.split("/")):
                 shortest_reexport_module_id = reexport_module.id
                 shortest_reexport_module = reexport_module
